@@ -471,6 +471,11 @@ func (w *Writer) collectNeedBakeExpressions(fn *ir.Function) {
 						w.needBakeExpression[*mathExpr.Arg1] = struct{}{}
 					}
 				}
+			case ir.MathFirstLeadingBit:
+				// The expansion repeats the argument next to `~`, `<` and `==`.
+				if !w.isLiteralExpression(fn, mathExpr.Arg) {
+					w.needBakeExpression[mathExpr.Arg] = struct{}{}
+				}
 			}
 		}
 	}
